@@ -22,7 +22,7 @@ VARIABLES cachekind,   \* "none" | "map" | "lru" | "lru1"
           hist,        \* the requests so far, with the decision the specification prescribes
           vdef         \* the declaration of $n: "none" = `$n: Int`, "big" = `$n: Int = 100` (then a request
                        \* WITHOUT variables is the expensive one)
-gvars == <<pc, tree, asg, out, cachekind, cached, hist, vdef>>
+gvars == <<pc, tree, asg, out, bnd, cachekind, cached, hist, vdef>>
 
 V(name) == Fld(name, "var", <<>>)
 SpV == Frag("spread", "A", <<V("arg")>>)
@@ -60,14 +60,14 @@ Req(c, rel) ==
 OtherReq ==
   LET cx == Cx(asg, OtherTree) IN [other |-> TRUE, c |-> "none", x |-> 0, lim |-> cx, cx |-> cx, rej |-> FALSE]
 
-GInit == /\ pc = "hist" /\ tree \in HistTrees /\ asg \in HistAsgs(tree) /\ out = NoOut
+GInit == /\ pc = "hist" /\ bnd = Binding /\ tree \in HistTrees /\ asg \in HistAsgs(tree) /\ out = NoOut
          /\ cachekind \in CacheKinds /\ cached = FALSE /\ hist = <<>> /\ vdef \in {"none", "big"}
 
 Request(c, rel) ==
   /\ Len(hist) < MaxReqs
   /\ hist' = Append(hist, Req(c, rel))
   /\ cached' = (cachekind # "none")          \* parseQuery adds the document on a miss
-  /\ UNCHANGED <<pc, tree, asg, out, cachekind, vdef>>
+  /\ UNCHANGED <<pc, tree, asg, out, bnd, cachekind, vdef>>
 
 \* a request with another query text between two requests of interest
 Other ==
@@ -75,7 +75,7 @@ Other ==
   /\ ~hist[Len(hist)].other
   /\ hist' = Append(hist, OtherReq)
   /\ cached' = (IF cachekind = "lru1" THEN FALSE ELSE cached)
-  /\ UNCHANGED <<pc, tree, asg, out, cachekind, vdef>>
+  /\ UNCHANGED <<pc, tree, asg, out, bnd, cachekind, vdef>>
 
 GNext == (\E c \in Classes, rel \in {"below", "at"} : Request(c, rel)) \/ Other
 GSpec == GInit /\ [][GNext]_gvars
